@@ -77,6 +77,46 @@ pub fn c01(c: &mut Ctx, b: &Budget) {
         }
         c.end();
     }
+    // the typed constructors (`Envelope::new(&str)`, `String`, integers, bool, bytes, floats, dates, known values ...) against the
+    // generic route through `CBOR`, values chosen at the awkward spots: text that is not in Unicode NFC, head-size boundaries,
+    // reducible floats.  (The harness builds leaves from encoded CBOR everywhere else, which never enters these impls.)
+    {
+        c.begin("typed-constructors");
+        let mut pairs: Vec<(String, Envelope, CBOR)> = vec![];
+        for t in ["", "Hello", "Cafe\u{301}", "\u{212b}ngstr\u{f6}m", "\u{1112}\u{1161}\u{11ab}", "a\u{323}\u{307}", "e\u{301}\u{301}", "\u{fb01}", "\u{1e9b}\u{323}", "nai\u{308}ve text, longer than twenty-three bytes"] {
+            pairs.push((format!("&str {:?}", t), Envelope::new(t), CBOR::from(t)));
+            pairs.push((format!("String {:?}", t), Envelope::new(t.to_string()), CBOR::from(t.to_string())));
+        }
+        macro_rules! ints { ($($ty:ty),*) => { $( for v in [<$ty>::MIN, <$ty>::MAX, 0 as $ty, 1 as $ty, 23 as $ty, 24 as $ty, 100 as $ty] { pairs.push((format!("{} {}", stringify!($ty), v), Envelope::new(v), CBOR::from(v))); } )* } }
+        ints!(u8, u16, u32, u64, usize, i8, i16, i32, i64);
+        for v in [255u64, 256, 65535, 65536, 4294967295, 4294967296] { pairs.push((format!("u64 {}", v), Envelope::new(v), CBOR::from(v))); }
+        for v in [-1i64, -24, -25, -256, -257, -65536, -65537, -4294967296, -4294967297] { pairs.push((format!("i64 {}", v), Envelope::new(v), CBOR::from(v))); }
+        for v in [0.0f64, -0.0, 1.0, 1.5, 1.1, 65504.0, 65505.0, 1e300, f64::INFINITY, f64::NEG_INFINITY, f64::NAN, 0.1f32 as f64, 16777216.0, 3.0e9] { pairs.push((format!("f64 {}", v), Envelope::new(v), CBOR::from(v))); }
+        for v in [0.0f32, 1.5, 0.1, 65504.0, 3.0e9, f32::INFINITY] { pairs.push((format!("f32 {}", v), Envelope::new(v), CBOR::from(v))); }
+        for v in [true, false] { pairs.push((format!("bool {}", v), Envelope::new(v), CBOR::from(v))); }
+        for n in [0usize, 1, 23, 24, 255, 256] { let bs = ByteString::from(vec![7u8; n]); pairs.push((format!("ByteString {}", n), Envelope::new(bs.clone()), CBOR::from(bs))); }
+        for v in [0u64, 1, 23, 24, 255, 256, 65535, 65536, 4294967295, 4294967296, (9u64 << 32) + 4, u64::MAX] { let kv = KnownValue::new(v); pairs.push((format!("KnownValue {}", v), Envelope::new(kv.clone()), CBOR::from(kv))); }
+        for t in [0.0f64, 1_700_000_000.0, -86_400.0, 1_700_000_000.5] { let d = dcbor::Date::from_timestamp(t); pairs.push((format!("Date {}", t), Envelope::new(d.clone()), CBOR::from(d))); }
+        { let d = bc_components::Digest::from_image(b"x"); pairs.push(("Digest".into(), Envelope::new(d.clone()), CBOR::from(d))); }
+        { let a = bc_components::ARID::from_data_ref(vec![3u8; 32]).unwrap(); pairs.push(("ARID".into(), Envelope::new(a.clone()), CBOR::from(a))); }
+        pairs.push(("Vec<u64>".into(), Envelope::new(vec![1u64, 2, 3]), CBOR::from(vec![1u64, 2, 3])));
+        pairs.push(("CBOR null".into(), Envelope::null(), CBOR::null()));
+        // the known values twice over, in an order that lets a stale per-thread memo show (low 32 bits equal)
+        for v in [0u64, 1u64 << 32, 4, (9u64 << 32) + 4, 4, 0] { let kv = KnownValue::new(v); pairs.push((format!("KnownValue again {}", v), Envelope::new(kv.clone()), CBOR::from(kv))); }
+        for (what, typed, generic) in &pairs {
+            let viacbor = if let CBORCase::Tagged(t, inner) = generic.as_case() { if t.value() == 40000 { match inner.as_case() { CBORCase::Unsigned(n) => Envelope::new(KnownValue::new(*n)), _ => Envelope::new(generic.clone()) } } else { Envelope::new(generic.clone()) } } else { Envelope::new(generic.clone()) };
+            let r = check_spec_digests(typed);
+            c.check("spec-digest", r.is_ok(), "spec-digest", || format!("Envelope::new({}): {}", what, r.unwrap_err()));
+            // the same value through its own encoding, decoded again
+            let back = Envelope::from_tagged_cbor_data(typed.tagged_cbor().to_cbor_data());
+            c.check("typed-constructor-route", back.as_ref().map(|b2| b2.digest() == typed.digest()).unwrap_or(false) && (typed.is_known_value() || typed.digest() == viacbor.digest()), "route-independent",
+                || format!("Envelope::new({}) has digest {} but its encoding decodes to {:?} and the CBOR route gives {}", what, hex::encode(typed.digest().data()), back.as_ref().map(|b2| hex::encode(b2.digest().data())).map_err(|e| e.to_string()), hex::encode(viacbor.digest().data())));
+            let r0 = c.assign(&format!("decode {}", hex::encode(typed.tagged_cbor().to_cbor_data())));
+            c.obs(&format!("shape {}", r0));
+        }
+        c.count_n("typed-constructor-values", pairs.len() as u64);
+        c.end();
+    }
     // route independence: the same content assembled along two routes
     for _ in 0..(b.scenarios / 4).max(5) {
         c.begin("routes");
@@ -432,6 +472,37 @@ pub fn c07(c: &mut Ctx, b: &Budget) {
             let u = c.assign(&format!("unwrap {}", w));
             c.obs(&format!("eq {} {}", e, u));
             if let Some(y) = c.env(&u) { c.check("unwrap-wrap", y.tagged_cbor().to_cbor_data() == base.tagged_cbor().to_cbor_data() && y.is_identical_to(&base), "unwrap-wrap", || shape(&y)); }
+            // ... whatever state the wrapped envelope is in: compressed, subject compressed / encrypted / elided, wrapped twice
+            for pre in ["compress", "compress_subject", "elide", "wrap"] {
+                let x = c.assign(&format!("{} {}", pre, e));
+                let x = if pre == "wrap" && c.rng.chance(1, 2) { let n = hex::encode(c.rng.bytes(12)); c.assign(&format!("encrypt_subject {} {} {}", x, KEY1, n)) } else { x };
+                if let Some(xe) = c.env(&x) {
+                    let w = c.assign(&format!("wrap {}", x)); let u = c.assign(&format!("unwrap {}", w));
+                    c.obs(&format!("eq {} {}", x, u));
+                    if let Some(y) = c.env(&u) { c.check("unwrap-wrap", y.tagged_cbor().to_cbor_data() == xe.tagged_cbor().to_cbor_data() && y.is_identical_to(&xe), "unwrap-wrap", || format!("wrapped {} came back as {}", shape(&xe), shape(&y))); }
+                }
+            }
+            // replace_assertion(x, y) is remove(x) then add(y), for x, y among: a present assertion, an obscured form of it, another
+            // present one, an absent one
+            {
+                let na = base.assertions().len();
+                if na >= 1 {
+                    let i1 = c.rng.below(na); let a1 = c.assign(&format!("at {} a{}", e, i1));
+                    let a1e = c.assign(&format!("elide {}", a1));
+                    let a2 = if na >= 2 { c.assign(&format!("at {} a{}", e, (i1 + 1) % na)) } else { gen_assertion(c, &cfg, 0) };
+                    let absent = gen_assertion(c, &cfg, 0);
+                    let cands = [a1.clone(), a1e, a2, absent];
+                    for x in &cands { for y in &cands {
+                        let r1 = c.assign(&format!("replace_assertion {} {} {}", e, x, y));
+                        let rm = c.assign(&format!("remove {} {}", e, x));
+                        let r2 = c.assign(&format!("add {} {}", rm, y));
+                        c.obs(&format!("eq {} {}", r1, r2));
+                        if let (Some(p1), Some(p2)) = (c.env(&r1), c.env(&r2)) { c.check("replace-is-remove-then-add", p1.tagged_cbor().to_cbor_data() == p2.tagged_cbor().to_cbor_data(), "replace-route", || format!("replace_assertion gave {} but remove-then-add gives {}", shape(&p1), shape(&p2))); }
+                        else { c.check("replace-is-remove-then-add", c.is_ok(&r1) == c.is_ok(&r2), "replace-route", || "one route fails, the other does not".into()); }
+                    } }
+                    c.count("branch:replace-routes");
+                }
+            }
             // receiver unchanged by every operation
             let before = base.tagged_cbor().to_cbor_data();
             for _ in 0..4 { let _ = random_op(c, &e, &cfg); }
